@@ -169,7 +169,8 @@ def run_case(base, case, acc, tmpdir):
             acc.count("lp_comparisons")
             try:
                 raw_b = observe.raw_lp(m1)
-                ld = observe.lp_diff(raw_a, raw_b, rel=1e-12) + observe.fba_problems(m1, raw=raw_b)
+                what = ("cols", "rows", "obj", "dir") if raw_a["obj"] or raw_b["obj"] else ("cols", "rows", "obj")
+                ld = observe.lp_diff(raw_a, raw_b, rel=1e-12, what=what) + observe.fba_problems(m1, raw=raw_b)
             except Exception as e:
                 ld = [f"solver problem unreadable: {type(e).__name__}: {e}"]
             if ld:
